@@ -31,6 +31,7 @@ func TestCheck(t *testing.T) {
 		"(5) servers with pipeline limit 1 and 2 and a request-context timeout: connection A holds that many queries " +
 		"inside the handler (a gate the harness controls) while fresh connections B and C send ordinary queries; " +
 		"TCP and DoT frames are also written in pieces cut after the first prefix octet, after the prefix, inside the header and one byte before the end; " +
+		"(8) servers whose handler is the production chain of dnssvc with a scripted upstream: every EDNS form (incl. raw malformed ECS) x 9 query classes x upstream answer / NXDOMAIN / failure, judged without a reference handler: exactly one response, ID and question byte-equal, transports agree; " +
 		"(6) 160 sequential queries per DoQ connection whose FIN follows the query in a later packet; " +
 		"(7) datagrams of 513..4000 bytes (padded valid queries, valid queries followed by filler, garbage) over plain UDP, " +
 		"judged by their first 512 bytes. " +
@@ -191,6 +192,11 @@ func TestCheck(t *testing.T) {
 
 	// Phase 7: long-lived DoQ connections, FIN in a later packet.
 	e.doqLongLived()
+
+	// Phase 8: the production handler chain behind every transport.
+	if !e.prodPhase() {
+		return
+	}
 
 	// Observations of the servers themselves.
 	snap := metrics.Snapshot()
